@@ -321,4 +321,169 @@ Section Compose.
         rewrite Nat.add_1_r, Hret, Hk. exact HR'.
       + discriminate.
   Qed.
+
+  Lemma einv_sock_change : forall es s', EInv es -> Inv true s' -> Inv2 s' ->
+    tpc s' = tpc (sk es) -> returned s' = returned (sk es) ->
+    EInv (emk s' (ec es) (einrecv es) (elatch es) (eres es)).
+  Proof.
+    intros es s' H HI' HI2' Htp Hr.
+    constructor; simpl; try assumption.
+    - rewrite Hr. exact (ei_events _ H).
+    - intro Hin. rewrite Htp, Hr. exact (ei_idle _ H Hin).
+    - intro Hin. destruct (ei_recv _ H Hin) as (cpre & room & A & B & C0 & E).
+      exists cpre, room. unfold cur_op in *. rewrite Htp, Hr. auto.
+  Qed.
+
+  Lemma eenv_inv : forall es l, EInv es ->
+    match l with LRecv _ | LRecvInto _ | LWake => True
+    | _ => EInv (emk (fst (step true (sk es) l)) (ec es) (einrecv es) (elatch es) (eres es)) end.
+  Proof.
+    intros es l H. pose proof (env_step_tpc (sk es) l) as Ht.
+    pose proof (step_inv true (sk es) l (ei_inv _ H)) as HI'.
+    pose proof (step_inv2 (sk es) l (ei_inv _ H) (ei_inv2 _ H)) as HI2'.
+    destruct l; try exact I; destruct Ht as (Htp & Hr);
+      (apply einv_sock_change; [exact H | apply HI'; discriminate | exact HI2' | exact Htp | exact Hr]).
+  Qed.
+
+  Lemma estep_inv : forall es l, EInv es -> G (returned (sk (estep S into es l))) -> EInv (estep S into es l).
+  Proof.
+    intros es l H HG. destruct l as [|l].
+    - simpl in *. apply erecv_packet_inv; [exact H|].
+      (* recv_packet up to its first suspension returns nothing from the transport *)
+      revert HG. unfold erecv_packet. destruct (einrecv es) eqn:Hin; [auto|].
+      destruct (ei_idle _ H Hin) as (Hp & _).
+      destruct (sdrain S (ec es)) as [c' r]. 
+      assert (Hhead : G (returned (sk (ehead S into es (sk es) c'))) -> G (returned (sk es))).
+      { unfold ehead. destruct (sroom S c') as [[c1 room]|]; [|simpl; auto].
+        destruct (call (sk es) (if into then OInto room else ORecv room)) as [s2 ob2] eqn:Hc2.
+        pose proof (call_cases _ _ _ _ Hc2 Hp) as Hcc.
+        destruct ob2 as [| |r2|]; simpl; try (subst s2; auto; fail).
+        - destruct Hcc as (_ & Hr2). rewrite Hr2. auto.
+        - subst s2. destruct r2 as [b2| | |]; simpl; auto. destruct b2; simpl; auto. }
+      destruct r; simpl; auto. destruct (elatch es); simpl; auto.
+    - destruct l as [k|k|b| |exc| | |];
+        [ exact H | exact H | exact (eenv_inv es (LData b) H) | exact (eenv_inv es LEof H)
+        | exact (eenv_inv es (LLost exc) H) | exact (eenv_inv es LCancel H)
+        | apply ewake_inv; assumption | exact (eenv_inv es LTurn H) ].
+  Qed.
+
+  (* delivered only grows *)
+  Lemma estep_delivered : forall es l, exists x, delivered (sk (estep S into es l)) = delivered (sk es) ++ x.
+  Proof.
+    intros es l.
+    assert (Hstep : forall l0, exists x, delivered (fst (step true (sk es) l0)) = delivered (sk es) ++ x).
+    { intro l0. eexists. apply step_delivered. }
+    assert (Hcall : forall s o, exists x, delivered (fst (call s o)) = delivered s ++ x).
+    { intros s o. rewrite call_is_step. eexists. apply step_delivered. }
+    assert (Hhead : forall (es0 : @estate P C) s c, exists x, delivered (sk (ehead S into es0 s c)) = delivered s ++ x).
+    { intros es0 s c. unfold ehead. destruct (sroom S c) as [[c1 room]|]; [|exists []; simpl; rewrite app_nil_r; reflexivity].
+      destruct (Hcall s (if into then OInto room else ORecv room)) as (x & Hx).
+      destruct (call s (if into then OInto room else ORecv room)) as [s2 ob2]. simpl in Hx.
+      exists x. destruct ob2 as [| |r2|]; simpl; auto. destruct r2 as [b2| | |]; simpl; auto. destruct b2; simpl; auto. }
+    destruct l as [|l].
+    - simpl. unfold erecv_packet. destruct (einrecv es); [exists []; rewrite app_nil_r; reflexivity|].
+      destruct (sdrain S (ec es)) as [c' r].
+      destruct r; simpl; try (exists []; rewrite app_nil_r; reflexivity).
+      destruct (elatch es); simpl; [exists []; rewrite app_nil_r; reflexivity | apply Hhead].
+    - destruct l as [k|k|b| |exc| | |];
+        [ exists []; rewrite app_nil_r; reflexivity | exists []; rewrite app_nil_r; reflexivity
+        | exact (Hstep (LData b)) | exact (Hstep LEof) | exact (Hstep (LLost exc)) | exact (Hstep LCancel)
+        | | exact (Hstep LTurn) ].
+      simpl. unfold ewake. destruct (Hstep LWake) as (x & Hx). simpl in Hx.
+      destruct (wake true (sk es)) as [s' ob]. simpl in Hx.
+      destruct ob as [| |r|]; simpl; try (exists x; exact Hx).
+      destruct (einrecv es); simpl; [|exists x; exact Hx].
+      destruct r as [b| |e|]; simpl; try (exists x; exact Hx).
+      destruct b; simpl; [exists x; exact Hx|].
+      destruct (sfeed S (ec es) (b :: b0)) as [c2 r2].
+      destruct r2; simpl; try (exists x; exact Hx).
+      destruct (Hhead (emk s' c2 false (elatch es) (eres es)) s' c2) as (y & Hy).
+      exists (x ++ y). rewrite Hy, Hx, app_assoc. reflexivity.
+  Qed.
+
+  Lemma erun_delivered : forall ls es, exists x, delivered (sk (erun S into es ls)) = delivered (sk es) ++ x.
+  Proof.
+    induction ls as [|l ls IH]; intro es; simpl; [exists []; rewrite app_nil_r; reflexivity|].
+    destruct (IH (estep S into es l)) as (y & Hy). destruct (estep_delivered es l) as (x & Hx).
+    exists (x ++ y). rewrite Hy, Hx, app_assoc. reflexivity.
+  Qed.
+
+  (* G of everything delivered gives G of what was returned *)
+  Lemma G_returned : forall s, Inv true s -> G (delivered s) -> G (returned s).
+  Proof.
+    intros s HI HG. destruct (inv_no_loss _ _ HI) as (tail & Hn & _).
+    rewrite <- Hn in HG. exact (okr_prefix _ _ _ _ _ OK _ _ HG).
+  Qed.
+
+  Lemma erun_inv : forall ls es, EInv es -> G (delivered (sk (erun S into es ls))) -> EInv (erun S into es ls).
+  Proof.
+    induction ls as [|l ls IH]; intros es H HG; [exact H|]. simpl in *.
+    apply IH; [|exact HG].
+    destruct (erun_delivered ls (estep S into es l)) as (x & Hx). rewrite Hx in HG.
+    pose proof (okr_prefix _ _ _ _ _ OK _ _ HG) as HG1.
+    (* Inv of the protocol part does not need G *)
+    assert (HI1 : Inv true (sk (estep S into es l))).
+    { clear - H OK D_sroom. destruct l as [|l].
+      - simpl. unfold erecv_packet. destruct (einrecv es); [exact (ei_inv _ H)|].
+        destruct (sdrain S (ec es)) as [c' r].
+        assert (Hh : forall (es0 : @estate P C) s c, Inv true s -> Inv true (sk (ehead S into es0 s c))).
+        { intros es0 s c Hs. unfold ehead. destruct (sroom S c) as [[c1 room]|]; [|exact Hs].
+          pose proof (call_inv true s (if into then OInto room else ORecv room) Hs) as Hc.
+          destruct (call s (if into then OInto room else ORecv room)) as [s2 ob2]. simpl in Hc.
+          destruct ob2 as [| |r2|]; simpl; auto. destruct r2 as [b2| | |]; simpl; auto. destruct b2; simpl; auto. }
+        destruct r; simpl; try exact (ei_inv _ H).
+        destruct (elatch es); simpl; [exact (ei_inv _ H) | apply Hh; exact (ei_inv _ H)].
+      - pose proof (fun l0 => step_inv true (sk es) l0 (ei_inv _ H) (fun Hf => False_ind _ (Bool.diff_true_false Hf))) as Hst.
+        destruct l as [k|k|b| |exc| | |];
+          [ exact (ei_inv _ H) | exact (ei_inv _ H) | exact (Hst (LData b)) | exact (Hst LEof)
+          | exact (Hst (LLost exc)) | exact (Hst LCancel) | | exact (Hst LTurn) ].
+        simpl. unfold ewake. pose proof (wake_inv true (sk es) (ei_inv _ H)) as Hw.
+        destruct (wake true (sk es)) as [s' ob]. simpl in Hw.
+        destruct ob as [| |r|]; simpl; auto. destruct (einrecv es); simpl; auto.
+        destruct r as [b| |e|]; simpl; auto. destruct b; simpl; auto.
+        destruct (sfeed S (ec es) (b :: b0)) as [c2 r2]. destruct r2; simpl; auto.
+        unfold ehead. destruct (sroom S c2) as [[c1 room]|]; [|exact Hw].
+        pose proof (call_inv true s' (if into then OInto room else ORecv room) Hw) as Hc.
+        destruct (call s' (if into then OInto room else ORecv room)) as [s2 ob2]. simpl in Hc.
+        destruct ob2 as [| |r2|]; simpl; auto. destruct r2 as [b2| | |]; simpl; auto. destruct b2; simpl; auto. }
+    apply estep_inv; [exact H|]. apply G_returned; assumption.
+  Qed.
+
+  Lemma einv_init : forall c0, R c0 [] 0 -> EInv (einit c0).
+  Proof.
+    intros c0 HR. constructor; simpl.
+    - apply inv_init.
+    - apply inv2_init.
+    - reflexivity.
+    - intros _. split; [reflexivity | exact HR].
+    - discriminate.
+  Qed.
+
+  (* the endpoint corollary *)
+  Lemma recv_packet_no_loss_proof : forall c0 ls,
+    R c0 [] 0 ->
+    let es := erun S into (einit c0) ls in
+    G (delivered (sk es)) ->
+    (exists rest, spec (delivered (sk es)) = events es ++ rest) /\
+    (einrecv es = false -> R (ec es) (returned (sk es)) (length (events es))) /\
+    (exists tail, returned (sk es) ++ parked (sk es) ++ tail = delivered (sk es) /\
+                  (tail <> [] -> lost_exc (sk es) <> None)).
+  Proof.
+    intros c0 ls HR es HG.
+    pose proof (erun_inv ls (einit c0) (einv_init c0 HR) HG) as H. fold es in H.
+    destruct (inv_no_loss _ _ (ei_inv _ H)) as (tail & Hn & Ht).
+    pose proof (ei_events _ H) as Hev.
+    assert (Hle : length (events es) <= length (spec (returned (sk es)))).
+    { rewrite Hev at 1. rewrite firstn_length. lia. }
+    assert (Hpre : forall x, firstn (length (events es)) (spec (returned (sk es) ++ x)) = events es).
+    { intro x. destruct (okr_mono _ _ _ _ _ OK (returned (sk es)) x) as (tl & Htl). rewrite Htl.
+      rewrite firstn_app. replace (length (events es) - length (spec (returned (sk es)))) with 0 by lia.
+      simpl. rewrite app_nil_r. symmetry. exact Hev. }
+    split; [|split].
+    - exists (skipn (length (events es)) (spec (delivered (sk es)))).
+      rewrite <- (firstn_skipn (length (events es)) (spec (delivered (sk es)))) at 1. f_equal.
+      rewrite <- Hn. apply Hpre.
+    - intro Hin. exact (proj2 (ei_idle _ H Hin)).
+    - exists tail. split; assumption.
+  Qed.
 End Compose.
